@@ -179,7 +179,9 @@ class _Quadrature(torch.autograd.Function):
             else:
                 xl, xu = ctx.xlxu_nontensor
 
-            # calculate the gradient for the boundaries
+        # calculate the gradient for the boundaries: the integrand is evaluated with
+        # the object's tensors of the forward call (the object may hold others by now)
+        with fcn.useobjparams(allparams[nparams:]):
             grad_xl = -torch.dot(grad_ys.reshape(-1), fcn(xl, *params).reshape(-1)
                                  ).reshape(xl.shape) if ctx.xltensor else None
             grad_xu = torch.dot(grad_ys.reshape(-1), fcn(xu, *params).reshape(-1)
